@@ -14,4 +14,14 @@ CHECKS = {
           "byte-exact reads plus determinism of h5py, assumed).",
   "technique": "contract-based deductive verification: AST-generated VCs with loop invariants and callee contracts, discharged by z3 (cvc5 fallback)"},
 }
+CHECKS["C20"] = {
+  "text": "Proof that RTDCWriter.write_ndarray (scalar branch) appends exactly the given events and re-establishes the summary "
+          "invariant SInv (stored min/max/mean == NaN-ignoring min/max/mean of the stored values) for every split of the data over "
+          "calls and every placement of NaNs, and that H5ScalarEvent.min/max/mean and ChildScalar.min/max/mean return those "
+          "summaries (stored attribute under SInv, else computed from the feature's own values).",
+  "note": "Trusted: floats as reals plus explicit NaN (no +-inf, no rounding), the h5py object model H-CREATE/H-RESIZE/H-SLICE/H-ATTR, "
+          "numpy nanmin/nanmax/nanmean as the recursive NaN-ignoring summaries, the concatenation/prefix lemmas of the summary "
+          "functions (pyvc/lemmas.py), hparent[feat] as the parent's data. Not yet under contract: rtdc_copy summary completion, "
+          "task_join/export paths reach the file only through write_ndarray (assumed, see C01/C02).",
+  "technique": "contract-based deductive verification: AST-generated VCs over an axiomatised HDF5/numpy model with ghost summary state, discharged by z3 (cvc5 fallback); bounded replay only when a function leaves the accepted subset"}
 NOT_APPLICABLE = {}
